@@ -405,12 +405,35 @@ func funcMap() vuego.FuncMap {
 	funcMapOnce.Do(func() {
 		funcMapAll = vuego.FuncMap{}
 		for n, f := range funcs {
-			if !f.builtin {
+			if !f.builtin && !f.sig {
 				funcMapAll[n] = f.impl
 			}
 		}
 	})
 	return funcMapAll // vuego copies the entries into its own map
+}
+
+var sigNameRe = regexp.MustCompile(`sgC?_\w*`)
+
+// funcMapFor adds the members of the signature product that the expression text mentions (the
+// whole product has several hundred functions; registering all of them for every case only
+// costs time).
+func funcMapFor(text string) vuego.FuncMap {
+	base := funcMap()
+	names := sigNameRe.FindAllString(text, -1)
+	if len(names) == 0 {
+		return base
+	}
+	m := make(vuego.FuncMap, len(base)+len(names))
+	for k, v := range base {
+		m[k] = v
+	}
+	for _, n := range names {
+		if f, ok := funcs[n]; ok && f.sig {
+			m[n] = f.impl
+		}
+	}
+	return m
 }
 
 var (
